@@ -53,9 +53,9 @@
          certificates", README's server section says client_ca_file is what enables mTLS: client authentication on or off.
      O4  reload due but files unreadable / invalid / not a pair: the handshake fails or presents the old certificate; whether
          the attempt counts as a reload (retry at once or after R) is open.
-     O5  client CA file rewritten with invalid content or removed: the previous pool stays or every client is refused;
-         a file created again after a removal (non-atomic replacement) may or may not be picked up, and so may every later
-         change (the watch may be lost).  [what the pinned code does: see report]
+     O5  client CA file rewritten with invalid content or removed: the previous pool stays or every client is refused, until
+         valid content is there again (a file created again after a removal counts as modified: it decides, and so does
+         every later change).
      O6  min_version > max_version at LoadTLSConfig (Validate rejects it): accepted or refused.
      O7  names of crypto/tls.InsecureCipherSuites() in cipher_suites: accepted or refused.
      O8  which suites the "safe default list" holds: assumed to hold the three suites of the universe (A, B, C).
@@ -169,6 +169,7 @@ Why(c, xs, pair, moved, p, o) ==
          IF (o.ok \/ (c.role = "server" /\ o.seen # "")) /\ \A t \in sv : t.served # o.seen THEN "ServedCertificate"
          ELSE IF c.role = "server" /\ c.cca \in CANames /\ moved THEN "ClientCAReload"
          ELSE IF o.ok THEN "ClientAuth"
+         ELSE IF c.role = "server" /\ c.cca \in CANames /\ p.pid \in Leaves /\ o.seen # "" THEN "ClientAuth"
          ELSE IF Reloading(c) /\ ~ValidPair(EffPair(c, pair)) THEN "ServedCertificate"      \* failed although no reload was due
          ELSE "Availability"
 
@@ -177,7 +178,7 @@ Why(c, xs, pair, moved, p, o) ==
      pair, ca     what is on disk (certificate pair, client CA file)
      xs           possible [cur, due, pool]
      pend, must   a client CA file operation has not been settled yet; pools admitted once it has
-     loose        the client CA file was removed once (O5: from then on changes may or may not be seen)
+     loose        the client CA file was removed once (kept for the reports only)
      moved        the client CA file content ever changed (used for the clause name only)
      loaded       "no" | result of load;  bad = "" or the name of the contradicted clause *)
 Init0(c) == [pair |-> c.pair, ca |-> c.cca, xs |-> {}, pend |-> FALSE, must |-> {}, loose |-> FALSE, moved |-> FALSE,
@@ -199,10 +200,9 @@ CAOp(c, s, how, content) ==
              newp   == IF content \in CANames THEN {PoolOf(c, content)} ELSE {}
              lose   == s.loose \/ how = "remove"
              must   == IF how = "chmod" THEN (IF s.pend THEN s.must ELSE old) \cup newp
-                       ELSE IF lose \/ how = "create" THEN old \cup newp \cup {{}}                  \* O5
-                       ELSE IF newp # {} THEN newp
+                       ELSE IF how # "remove" /\ newp # {} THEN newp
                        ELSE old \cup {{}}                                                             \* O5
-             now    == old \cup newp \cup (IF how # "chmod" /\ (newp = {} \/ lose) THEN {{}} ELSE {})
+             now    == old \cup newp \cup (IF how # "chmod" /\ newp = {} THEN {{}} ELSE {})
          IN [s EXCEPT !.ca = IF how = "remove" THEN "missing" ELSE IF how = "chmod" THEN s.ca ELSE content,
                       !.xs = {[x EXCEPT !.pool = pl] : x \in s.xs, pl \in now},
                       !.pend = TRUE, !.must = must, !.loose = lose, !.moved = TRUE]
